@@ -535,6 +535,86 @@ def pomless_section_case(ctx):
         ctx.violation(f'a configuration whose triples maps have no predicate-object map does not give the empty result: {str(only)[:200]}', inp)
 
 
+R2 = ('@prefix rr: <http://www.w3.org/ns/r2rml#> . @prefix rml: <http://semweb.mmlab.be/ns/rml#> . '
+      '@prefix ql: <http://semweb.mmlab.be/ns/ql#> . @prefix ex: <http://ex.org/> .\n')
+CONF1 = '[CONFIGURATION]\noutput_format=N-QUADS\nnumber_of_processes=1\nlogging_level=CRITICAL\n'
+
+
+def shared_subject_map_case(ctx):
+    """Two triples maps of one document that use ONE (named) subject-map resource carrying rr:class, rr:graphMap and a template:
+    the document means the union of the two triples maps, each with that subject map — exactly what the spelling with two inline
+    copies of the subject map gives.  (Shared nodes are where "one row per triples map" shortcuts of the parser go wrong.)"""
+    d = os.path.join(ctx.tmp, 'sharedsm')
+    os.makedirs(d, exist_ok=True)
+    for name, text in (('a.csv', 'k,v\nx,1\ny,2\n'), ('b.csv', 'k,w\nx,7\nz,8\n')):
+        with open(os.path.join(d, name), 'w') as f:
+            f.write(text)
+    sm = ('rr:template "http://ex.org/s/{k}"; rr:class ex:K, ex:L; rr:graphMap [ rr:constant ex:g ]')
+    def doc(shared):
+        head = R2 + (f'ex:SM {sm} .\n' if shared else '')
+        sub = 'rr:subjectMap ex:SM' if shared else f'rr:subjectMap [ {sm} ]'
+        return head + ''.join(
+            f'ex:TM{i} rml:logicalSource [ rml:source "{os.path.join(d, fn)}"; rml:referenceFormulation ql:CSV ]; {sub};\n'
+            f'  rr:predicateObjectMap [ rr:predicate ex:p{i}; rr:objectMap [ rml:reference "{col}" ] ] .\n'
+            for i, (fn, col) in enumerate((('a.csv', 'v'), ('b.csv', 'w'))))
+    res = {}
+    for shared in (False, True):
+        mp = os.path.join(d, f'm{int(shared)}.ttl')
+        with open(mp, 'w') as f:
+            f.write(doc(shared))
+        res[shared] = run_cfg(CONF1 + f'[DS]\nmappings={mp}\n')
+    ctx.case(['shared-subject-map'], nontrivial=True, kind='one subject-map resource shared by two triples maps')
+    ctx.traces_validated += 1
+    inp = {'kind': 'shared-subject-map'}
+    if res[False][0] != 'ok' or len(res[False][1]) != 10:
+        ctx.violation(f'the reference spelling (inline subject maps) does not give its 10 statements: {str(res[False])[:300]}', inp)
+    elif res[True] != res[False]:
+        miss = [x for x in res[False][1] if res[True][0] != 'ok' or x not in res[True][1]]
+        ctx.violation('two triples maps sharing one subject-map resource do not mean the union of the two triples maps: '
+                      f'missing {miss[:3]} ({str(res[True])[:120]})', inp)
+
+
+def same_table_two_databases_case(ctx):
+    """Two data-source sections, each with its own SQLite database; both databases have a table `person` with the same columns and
+    different rows, both mapping files (own triples-map identifiers) map it the same way: the configuration with both sections means
+    the union of the sections alone (rules of the two sections land in one mapping group: same templates and predicates)."""
+    import sqlite3
+    d = os.path.join(ctx.tmp, 'twodb')
+    os.makedirs(d, exist_ok=True)
+    secs = {}
+    for br, rows in (('north', [('1', 'ann'), ('2', 'bob')]), ('south', [('3', 'cy'), ('2', 'dee')])):
+        dbp = os.path.join(d, br + '.db')
+        if os.path.exists(dbp):
+            os.remove(dbp)
+        con = sqlite3.connect(dbp)
+        con.execute('create table person (id text, name text)')
+        con.executemany('insert into person values (?, ?)', rows)
+        con.commit()
+        con.close()
+        mp = os.path.join(d, br + '.ttl')
+        with open(mp, 'w') as f:
+            f.write(R2 + f'<http://ex.org/m/{br}#P> rr:logicalTable [ rr:tableName "person" ]; '
+                    'rr:subjectMap [ rr:template "http://ex.org/person/{id}" ]; '
+                    'rr:predicateObjectMap [ rr:predicate ex:name; rr:objectMap [ rr:column "name" ] ] .\n')
+        secs[br] = f'[{br}]\nmappings={mp}\ndb_url=sqlite:///{dbp}\n'
+    alone = {br: run_cfg(CONF1 + secs[br]) for br in secs}
+    ctx.case(['two-databases'], nontrivial=True, kind='two sections over two databases with the same table')
+    ctx.traces_validated += 1
+    inp = {'kind': 'two-databases'}
+    if any(r[0] != 'ok' or len(r[1]) != 2 for r in alone.values()):
+        ctx.violation(f'a section alone does not give its two statements: {str(alone)[:300]}', inp)
+        return
+    union = sorted(set(alone['north'][1]) | set(alone['south'][1]))
+    for order in (('north', 'south'), ('south', 'north')):
+        for mode in ('PARTIAL-AGGREGATIONS', 'NO'):
+            both = run_cfg(CONF1.replace('number_of_processes=1', f'number_of_processes=1\nmapping_partitioning={mode}')
+                           + ''.join(secs[b] for b in order))
+            if both != ('ok', union):
+                ctx.violation(f'two sections over two databases with the same table ({order}, {mode}) do not give the union of the '
+                              f'sections alone: {str(both)[:240]} instead of {union}', inp)
+                return
+
+
 def run(ctx, lean, findings):
     rng = ctx.rng
     drv = ctx.get_driver() if ctx.model_available else None
@@ -574,6 +654,8 @@ def run(ctx, lean, findings):
     relative_ids_case(ctx)
     shared_parent_case(ctx)
     pomless_section_case(ctx)
+    shared_subject_map_case(ctx)
+    same_table_two_databases_case(ctx)
 
     n = ctx.budget(72, 2400) * (3 if ctx.escalate else 1)
     cap = 70 if ctx.tier == 'quick' else 690
@@ -598,6 +680,10 @@ def replay(ctx, data):
     if data['input'].get('kind') == 'shared-parent':
         before = len(ctx.violations)
         shared_parent_case(ctx)
+        return len(ctx.violations) > before
+    if data['input'].get('kind') in ('shared-subject-map', 'two-databases'):
+        before = len(ctx.violations)
+        (shared_subject_map_case if data['input']['kind'] == 'shared-subject-map' else same_table_two_databases_case)(ctx)
         return len(ctx.violations) > before
     if data['input'].get('kind') == 'pomless-section':
         before = len(ctx.violations)
